@@ -8,6 +8,7 @@ import (
 	"strings"
 	"sync"
 	"time"
+	"verif/h/refsrv"
 
 	tq "github.com/facebookincubator/tacquito"
 	"verif/h/gen"
@@ -441,6 +442,62 @@ func runC17(b *mon.B) {
 		}
 		time.Sleep(time.Millisecond)
 		judgeC17Log(b, caseNo, "pacing/"+pat, []string{pat}, []*simnet.Conn{c}, world.Events(), world)
+	}
+	c17SharedContext(b, r.Fork(0xC17A), &caseNo)
+}
+
+// c17SharedContext: the reference server wired like cmds/server/main.go (ONE context for the loader
+// and for Serve). After the cancellation clients may still connect during the accept window; Serve
+// returns all the same, and no connection stays open.
+func c17SharedContext(b *mon.B, r *gen.R, caseNo *int) {
+	for k := 0; k < b.N1(3, 12); k++ {
+		*caseNo++
+		if !b.Want(*caseNo) {
+			continue
+		}
+		b.Eval(1)
+		sc := richConfig(r, 1)
+		ref, err := refsrv.Start(sc.Cfg, refsrv.Options{Keys: sc.Keys, ShareContext: true, ViaYAML: k%2 == 0})
+		if err != nil {
+			b.Inconclusive("reference configuration did not load: %v", err)
+			continue
+		}
+		ref.Net.Watchdog = 20 * time.Second
+		key := []byte(sc.Scopes[0].Key)
+		nBefore, nAfter := r.Intn(3), 1+r.Intn(3)
+		b.Class("shared-context/before=%d/after=%d", nBefore, nAfter)
+		var conns []*simnet.Conn
+		for i := 0; i < nBefore; i++ {
+			rc := newRefConn(ref, i+1, key)
+			rc.send(rfc8907.Header{Major: 0xc, Type: 2, Seq: 1, Session: r.U32()}, bAuthorRequest(6, 1, 1, 1, "alice", "p", "r", "service=shell", "cmd=show", "cmd-arg=version"), true)
+			conns = append(conns, rc.c)
+		}
+		ref.Cancel()
+		for i := 0; i < nAfter; i++ {
+			conns = append(conns, ref.L.Dial(simnet.RemoteFor(100+i)))
+		}
+		ref.Net.StallAll()
+		if err := ref.WaitServe(); err != nil {
+			if frame := stuckFrame(true); frame != "" {
+				b.Violate(*caseNo, "C17/serve-never-returns-after-cancel/"+frame, fmt.Sprintf("loader and Serve share one context; %d clients connected after the cancellation: every read has reached its deadline, yet Serve has not returned - a server goroutine is parked in %s", nAfter, frame),
+					map[string]interface{}{"connections_before_cancel": nBefore, "connections_after_cancel": nAfter})
+			} else {
+				b.Inconclusive("shared context: Serve did not return")
+			}
+			continue
+		}
+		open := 0
+		for _, c := range conns {
+			if c.Accepted() && !c.Closed() {
+				open++
+			}
+		}
+		if open > 0 {
+			b.Violate(*caseNo, "C17/connection-open-at-serve-return/shared-context", fmt.Sprintf("%d accepted connections are still open after Serve returned", open), nil)
+		} else {
+			b.Count("shared_context_shutdowns_clean", 1)
+		}
+		ref.Close()
 	}
 }
 
